@@ -429,9 +429,9 @@ func scanOutDeg(c *core.Ctx) []ob {
 					out = append(out, withProps(okOb("OUTDEG", key, c.Rel(d.fd.Pos()), "a loop of the function is bounded by the output's own degree", true), props...))
 					continue
 				case delegatesToBounded(info, un.scope, x):
-				out = append(out, withProps(okOb("OUTDEG", key, c.Rel(d.fd.Pos()), "the output is handed to a callee that loops over the components the output itself has", true), props...))
-				continue
-			case resizedFreeIn(info, d.fd, x, nil, un.scope):
+					out = append(out, withProps(okOb("OUTDEG", key, c.Rel(d.fd.Pos()), "the output is handed to a callee that loops over the components the output itself has", true), props...))
+					continue
+				case resizedFreeIn(info, d.fd, x, nil, un.scope):
 					out = append(out, withProps(okOb("OUTDEG", key, c.Rel(d.fd.Pos()), "the output is resized to a degree that does not depend on its previous degree", true), props...))
 					continue
 				}
